@@ -9,7 +9,7 @@ DEFAULT_PROFILE = dict(
     p_opt=0.1, p_split=0.15, p_default=0.35, p_subdir=0.2, p_twodot=0.3,
     steps=(6, 18),
     ops=dict(build=8, edit_r=3, edit_i=2, touch=1, rm=2, doedit=1, doadd=1, dorm=1, sel=2, flag=2, watch=2,
-             force=1, repeat=2, uwrite=0, urm=0, dorm_last=0.5),
+             force=1, repeat=2, uwrite=0, urm=0, dorm_last=0.5, m_watchduring=0),
     jmax=1, p_keep=0.0, p_multi=0.25,
 )
 
@@ -295,6 +295,15 @@ def gen_op(rnd, p, prof, last_build=None):
         j = 1 if prof['jmax'] <= 1 else rnd.choice([1, prof['jmax']])
         b = ('build', [top], dict(j=j, keep=rnd.random() < prof['p_keep'], forced=False))
         return [b, ('flag', n, 1), b, b, ('flag', n, 0), b, b]
+    if op == 'm_watchduring':
+        # the watched path appears while the watcher's script runs (after its redo-ifcreate): the next redo-ifchange must rebuild it
+        c = [n for n in tnames if p.targets[n].get('watch') and p.watch.get(p.targets[n]['watch']) is None and p.targets[n]['watch'] not in p.watch_link
+             and p.targets[n].get('flag') is None and not p.targets[n].get('opt')]
+        if not c:
+            return None
+        n = rnd.choice(c)
+        b = ('build', [n], dict(j=1, keep=False, forced=False))
+        return [('watch_during', p.targets[n]['watch']), ('build', [n], dict(j=1, keep=False, forced=True)), b, b]
     if op == 'uwrite':
         return ('uwrite', rnd.choice(tnames), rnd.choice(['inplace', 'replace', 'symlink', 'samesize'] if prof.get('user_symlinks') else ['inplace', 'replace', 'samesize']))
     if op == 'edit_back':
